@@ -80,7 +80,22 @@ static int zones(const ZI* const* reg, int n, int i0, int i1, long grid, int nco
     TimeZone byName = mgr.createForZoneName(zname);
     TimeZone byId = mgr.createForZoneId(ZONE(reg[i]).zoneId());
     if (byName.isError() || byId.isError() || !(byName == managed) || !(byId == managed)) fail("manager-created zone by name / by id is not the zone created by index", 0, i, byName.isError() * 2 + byId.isError());
-    TimeZone tzs[4] = {direct, managed, byName, byId};
+    // ... and restored from its saved form (TimeZoneData), and obtained by name from a user-defined registry that is not
+    // sorted but begins with its smallest name (sizes at which a sorted registry is searched by bisection)
+    TimeZone restored = mgr.createForTimeZoneData(managed.toTimeZoneData());
+    if (restored.isError() || !(restored == managed)) fail("zone restored from its saved TimeZoneData is not the zone that was saved", 0, i, restored.isError());
+    {
+      const ZI* uns[8] = {reg[0], reg[i], reg[(i + 50) % n], reg[(i + 120) % n], reg[(i + 30) % n], reg[(i + 90) % n], reg[(i + 10) % n], reg[(i + 150) % n]};
+      if (i != 0) {
+        MGR umgr(8, uns);
+        TimeZone un = umgr.createForZoneName(zname);
+        if (un.isError() || un.getZoneId() != ZONE(reg[i]).zoneId()) fail("zone created by name from an unsorted user registry is not that zone", 0, i, un.isError());
+        ZonedDateTime z = ZonedDateTime::forEpochSeconds((acetime_t) 300000000, un);
+        if (z.isError() || (long) z.toEpochSeconds() != 300000000) fail("round trip through a zone of an unsorted user registry", 300000000, i, 0);
+      }
+    }
+    TimeZone tzs[4] = {direct, managed, byName, restored};
+    if (byId.isError()) fail("createForZoneId gave the error zone", 0, i, 0);
     long prevOff = 999999;
     std::vector<long> ts;
     for (long t = 0; t < 18263L * 86400; t += grid) {
